@@ -75,6 +75,15 @@ def gen_case(rng, idx, tier):
                    'ldr': bool(rng.random() < 0.5),
                    'ldr_mask': (rng.random(nz) < 0.6).astype(int).tolist()}
         ops['late_forall'] = bool(rng.random() < 0.4)
+        # sets that consist of one plain box are written, in 40 % of the models, with exponential
+        # constraints only (exp(z) <= e^hi, exp(-z) <= e^-lo): sets without any linear piece
+        if rng.random() < 0.4:
+            for prims_ in [spec['dset']] + [r_['set'] for r_ in spec['rows'] if r_.get('set')]:
+                if len(prims_) == 1 and prims_[0]['t'] == 'box' and \
+                        np.all(np.array(prims_[0]['lo']) < np.array(prims_[0]['hi'])) and \
+                        np.max(np.abs(prims_[0]['lo'] + prims_[0]['hi'])) < 4:
+                    prims_[0]['exp_spell'] = True
+                    ops['exp_only_set'] = True
         return {'front': 'ro', 'spec': spec, 'ops': ops, 'distractors': dis, 'ext': ext,
                 'hseed': int(rng.integers(1 << 30))}
     spec = DR.gen(rng, tier)
